@@ -71,7 +71,7 @@ def gen(rng, depth):
             return E.fun(rng.choice(one), E.sym(rng.choice(SYMS)) if rng.random() < 0.6 else a)
         if r < 0.8:
             return E.fun("round", a, rng.choice([E.num(2), E.num(1), E.num(-1), E.sym("K")]))
-        return E.fun(rng.choice(["multiplicity", "log", "mod"]), a, b)
+        return E.fun(rng.choice(["multiplicity", "log", "mod", "atan2", "atan2"]), a, b)
     if k == "builtin":
         return rng.choice([E.op("ceil", E.op("div", a, E.num(2))), E.op("floor", E.op("div", a, E.num(3))), E.fun("log2", E.sym(rng.choice(SYMS))),
                            E.fun("sin", E.sym("x")), E.fun("gamma", E.sym("y")), E.fun("exp", E.sym("x"))])
